@@ -65,7 +65,11 @@ impl Value {
     /// (Closures, ExternalFn, Fixpoint, Store, ConstructorFn).
     pub fn to_ffi_value(&self) -> Result<FfiValue, String> {
         match self {
-            Value::ErrorV(_) => Ok(FfiValue::ErrorV),
+            // An error value has no representation on the other side (it used to be
+            // sent as a marker that decodes to `Unit`, i.e. silently altered).
+            Value::ErrorV(_) => {
+                Err("Error values cannot be serialized across FFI boundaries".to_string())
+            }
             Value::Unit => Ok(FfiValue::Unit),
             Value::Number(n) => Ok(FfiValue::Number(*n)),
             Value::String(sym) => Ok(FfiValue::String(sym.as_str().to_string())),
